@@ -425,3 +425,18 @@ func cgName(tier string) string {
 	}
 	return "CHA"
 }
+
+// borrow runs a rule family (or part of one) on behalf of this report's property: the obligations recorded under the
+// rule named from are renamed to, every other obligation of the family is dropped, and the family's own rule
+// declarations are not registered.
+func (r *Report) borrow(from, to string, run func()) {
+	old := r.remap
+	r.remap = func(o *Obligation) (string, bool) {
+		if o.Rule == from {
+			return to, true
+		}
+		return "", false
+	}
+	defer func() { r.remap = old }()
+	safely(r, run)
+}
